@@ -82,3 +82,4 @@ import Spydr.Edif.Props.Fragment
 #print axioms Spydr.Edif.C05.ErasureExample.noisy_accepted
 #print axioms Spydr.Edif.C05.ErasureExample.strip_noisy
 #print axioms Spydr.Edif.C05.ErasureExample.noisy_ne_core
+#print axioms Spydr.Edif.C05.inside_check_sound
